@@ -26,10 +26,20 @@ def run_cases(cases, per_case_timeout=30):
     return ops, res
 
 
+def no_nulls(o):
+    """the Json module of TLC cannot read null: drop null-valued fields (absent options carry no information)"""
+    if isinstance(o, dict):
+        return {k: no_nulls(v) for k, v in o.items() if v is not None}
+    if isinstance(o, list):
+        return [no_nulls(v) for v in o]
+    return o
+
+
 def judge(events, wd, known_dev, module="Trace_Sem", chunk=1500, workers=8, timeout=1800):
     """events: list of dicts understood by the trace spec. Returns {index: verdict} for non-ok events."""
     if not events:
         return {}
+    events = [no_nulls(e) for e in events]
     chunks = [events[i:i + chunk] for i in range(0, len(events), chunk)]
     cfg = os.path.join(wd, module + ".cfg")
     vlib.write_cfg(cfg, constants={"KnownDev": vlib.tla_set(known_dev)}, postcondition="Consumed")
